@@ -3,7 +3,7 @@
 # (and rebuild the prqlc binary from the restored tree, so that later manual probes do not run the changed compiler)
 P=$1; C=$2; shift 2
 git -C /repo apply "$P" || exit 3
-VERIF_EVIDENCE_DIR=/tmp/verif_try_evidence /verif/check "$C" "$@" 2>&1 | grep "VIOLATION\|failed obligation\|^OK\|UNDECIDED\|KNOWN" | cut -c1-220
+VERIF_EVIDENCE_DIR=/tmp/verif_try_evidence /verif/check "$C" "$@" 2>&1 | grep "VIOLATION\|failed obligation\|^OK\|UNDECIDED" | cut -c1-220
 git -C /repo checkout -- .
 rm -rf /tmp/verif_try_evidence
 (cd /repo && CARGO_NET_OFFLINE=true cargo build -q -p prqlc --bin prqlc --offline >/dev/null 2>&1)
